@@ -54,6 +54,18 @@ def run(ctx):
         ok = bt is not None and T.is_field(bt, "bound_types") and T.is_param(bt[1], arg)
         ctx.ob("C16.per-statement-storage", ok, "%s does not pass on the statement entry's bound_types (got %s)" % (b.path, term_str(bt) if bt else None),
                fn=b.path, construct="borrow", sample={"rule": "per-statement-storage", "fn": b.path, "bound_types": term_str(bt) if bt else None})
+    # the per-statement entry is only ever created by the PREPARE reply: nobody else builds or overwrites a StatementData
+    builders = set()
+    for b in prog.non_test_fns():
+        for bb, i, s_ in b.stmts():
+            if s_["k"] == "assign" and s_["rv"]["k"] == "agg" and s_["rv"].get("ak") == "adt" and s_["rv"]["adt"].endswith("StatementData"):
+                builders.add(b.path)
+        for bb, t in b.calls():
+            if re.search(r"<StatementData as std::default::Default>::default$", cname(t["func"])):
+                builders.add(b.path)
+    ok_b = {x for x in builders if x.endswith("StatementMetaWriter::<'a, W>::reply") or x == "<StatementData as std::default::Default>::default"}
+    ctx.ob("C16.per-statement-storage", builders <= ok_b, "a statement entry (with its bound types) is rebuilt outside the PREPARE reply: %s" % sorted(builders - ok_b),
+           fn="StatementData", construct="entry-builders")
     muts = []
     for b in prog.non_test_fns():
         for bb, t in b.calls():
